@@ -13,7 +13,8 @@
 (* frames : open calls / blocks, innermost last: [kind, catches, base]       *)
 (*          kind = "fn" (a call of any flavour) or "ctx" (a context block)   *)
 (*          base = Len(stack) when the frame was entered                     *)
-(* gens   : generators created and not yet resumed (their argument size)     *)
+(* gens   : live generators, oldest first: k > 0 created and not yet started  *)
+(*          (k = their argument size), -k started and suspended at a yield   *)
 (* obs    : what the program can observe after the step                      *)
 (* hist   : the program so far (for replay into the implementation)          *)
 (*                                                                         *)
@@ -27,7 +28,8 @@ CONSTANTS PopDiscipline, MaxFrames, MaxSteps, MaxGens
 
 \* jaxtyped(typechecker=tc), jaxtyped(tc(f)), typechecker=None, jaxtyped(typechecker=tc) on a function
 \* with no annotation at all (still a call: still its own context), context block
-Kinds == {"new", "old", "none", "bare", "ctx"}
+\* "bare0": the same with no parameter at all
+Kinds == {"new", "old", "none", "bare", "bare0", "ctx"}
 Catches == {"no", "exc", "base"}
 Sizes == 1..2
 
@@ -46,8 +48,9 @@ CanStep == Len(hist) < MaxSteps
 
 \* ---- a well-typed call: f(n = k, x = zeros(k)) with x: Float[.., "a"]; the body then runs
 Call(kind, c, k) ==
-  /\ CanStep /\ kind # "ctx" /\ Len(frames) < MaxFrames
-  /\ stack' = Append(stack, Ctx(IF kind \in {"none", "bare"} THEN 0 ELSE k, k))   \* the parameter check binds a = k
+  /\ CanStep /\ kind # "ctx" /\ Len(frames) < MaxFrames /\ (kind = "bare0" => k = 1)
+  /\ stack' = Append(stack, Ctx(IF kind \in {"none", "bare", "bare0"} THEN 0 ELSE k,      \* the parameter check binds a = k
+                                IF kind = "bare0" THEN 0 ELSE k))
   \* the flavour of the decorator plays no part in the life-time of the context: the frame only remembers "fn"
   /\ frames' = Append(frames, [kind |-> "fn", catches |-> c, base |-> Len(stack)])
   /\ UNCHANGED gens /\ obs' = Obs("entered") /\ Act([op |-> "call", kind |-> kind, catches |-> c, k |-> k])
@@ -128,14 +131,24 @@ MakeGen(kind, k) ==
   /\ gens' = Append(gens, k)
   /\ UNCHANGED <<stack, frames>> /\ obs' = Obs("generator") /\ Act([op |-> "makegen", kind |-> kind, k |-> k])
 
-\* ---- the oldest generator is resumed: its body performs a manual check of size k in whatever
-\* context is current NOW (it belongs to the resuming frame)
+\* ---- the oldest generator that has not been started yet is started: its body performs a manual check of
+\* size k in whatever context is current NOW (it belongs to the resuming frame), then it stays SUSPENDED at its
+\* yield - and a suspended generator holds no context open: whatever the consumer does next is unaffected
+Unstarted == {i \in DOMAIN gens : gens[i] > 0}
+Suspended == {i \in DOMAIN gens : gens[i] < 0}
+MinOf(S) == CHOOSE i \in S : \A j \in S : i <= j
 GenNext ==
-  /\ CanStep /\ gens # << >>
-  /\ LET k == Head(gens) IN
+  /\ CanStep /\ Unstarted # {}
+  /\ LET i == MinOf(Unstarted)  k == gens[i] IN
      /\ stack' = IF stack # << >> /\ Top.a = 0 THEN [stack EXCEPT ![Len(stack)].a = k] ELSE stack
      /\ obs' = Obs(CheckRes(k))
-  /\ gens' = Tail(gens) /\ UNCHANGED frames /\ Act([op |-> "gennext"])
+     /\ gens' = [gens EXCEPT ![i] = -k]
+  /\ UNCHANGED frames /\ Act([op |-> "gennext"])
+\* ---- the oldest suspended generator is closed
+GenClose ==
+  /\ CanStep /\ Suspended # {}
+  /\ LET i == MinOf(Suspended) IN gens' = [j \in 1..(Len(gens) - 1) |-> IF j < i THEN gens[j] ELSE gens[j + 1]]
+  /\ UNCHANGED <<stack, frames>> /\ obs' = Obs("closed") /\ Act([op |-> "genclose"])
 
 Next == \/ \E kind \in Kinds \ {"ctx"}, c \in Catches, k \in Sizes : Call(kind, c, k)
         \/ \E kind \in {"new", "old"}, c \in Catches : BadCall(kind, c)
@@ -144,7 +157,7 @@ Next == \/ \E kind \in Kinds \ {"ctx"}, c \in Catches, k \in Sizes : Call(kind, 
         \/ \E k \in Sizes : Check(k) \/ ArgCheck(k)
         \/ \E cls \in {"Exception", "BaseException"} : Raise(cls)
         \/ \E kind \in {"new", "none"}, k \in Sizes : MakeGen(kind, k)
-        \/ GenNext
+        \/ GenNext \/ GenClose
 Spec == Init /\ [][Next]_vars
 
 View == <<stack, frames, gens, obs>>
